@@ -261,7 +261,7 @@ class P(Property):
         return True
 
     def extra_checks(self, ctx):
-        """evidence histograms (side file evidence/C20_histograms.json); no verdict of its own"""
+        """evidence histograms (side file notes/C20_histograms.json); no verdict of its own"""
         import json, os, collections
         h = collections.Counter()
         sizes = collections.Counter()
@@ -300,7 +300,7 @@ class P(Property):
             h['observation_blocked_count_above_limit'] += over
         try:
             os.makedirs(os.path.join(os.path.dirname(os.path.dirname(os.path.dirname(os.path.abspath(__file__)))), 'evidence'), exist_ok=True)
-            with open(os.path.join(os.path.dirname(os.path.dirname(os.path.dirname(os.path.abspath(__file__)))), 'evidence', 'C20_histograms.json'), 'w') as f:
+            with open(os.path.join(os.path.dirname(os.path.dirname(os.path.dirname(os.path.abspath(__file__)))), 'notes', 'C20_histograms.json'), 'w') as f:
                 json.dump({'features': dict(h), 'sections_per_history': dict(sorted(sizes.items())), 'configurations': dict(sorted(caps.items()))}, f, indent=1)
         except OSError:
             pass
